@@ -285,6 +285,10 @@ func runOneCtx(ctx context.Context, s solverSpec, body string, tmo int, n int64,
 			break
 		}
 	}
+	if i := strings.Index(o, "(error"); i >= 0 && (line == "" || i < strings.Index(o, line+"\n") || strings.Index(o, line+"\n") < 0) {
+		// an error before the verdict: the query was not well-formed
+		line = ""
+	}
 	o = rest
 	r := SolverResult{Solver: s.name, Seconds: dt, Output: trunc(o, 4000)}
 	switch {
